@@ -1550,7 +1550,16 @@ def check_C06(tier, seed):
             nmatch += 1
             if m['oob'] or m['threw']:
                 out.violations.append({'summary': {'pattern': pat_text(pat), 'string': m['s'][:40], 'class': 'regex matcher read outside the string', 'threw': m['threw']}, 'kind': 'rx', 'pattern': pat})
-    mrecs, mcrash = run_rxexpr(rng, tier)
+    try:
+        mrecs, mcrash = run_rxexpr(rng, tier)
+    except Infra as ex:
+        if 'compile failed' not in str(ex):
+            raise
+        # harness/rxexpr.cpp holds ten documented patterns as regex::expr<P> objects and nothing else of the library: if it
+        # no longer compiles, the library rejects (or miscomputes, in constant evaluation) patterns it must accept
+        mrecs, mcrash = [], None
+        out.violations.append({'summary': {'class': 'compile-time regex objects (regex::expr<P>) over documented patterns no longer compile', 'compiler_says': str(ex)[-900:]},
+                               'kind': 'rxexpr', 'pattern': '', 'string': []})
     for r in mrecs:
         nmatch += 1
         if r.get('oob') or r.get('threw'):
